@@ -24,7 +24,7 @@ import (
 )
 
 func init() {
-	register(&Prop{ID: "C10", Gen: genC10, Run: runC10, Timeout: 900 * time.Second})
+	register(&Prop{ID: "C10", Gen: genC10, Run: runC10, Timeout: 300 * time.Second})
 }
 
 var (
@@ -196,9 +196,34 @@ func runC10(op string) string {
 			}
 			release()
 		}
+		stalled := false
 		if err == nil {
+			// Stall detection by events, not by the per-op deadline: once every byte of every
+			// message has been written by the sender and read by the receiving muxer, the
+			// receiving protocol only has a few buffered segments left to decode. If the handler
+			// still has not seen all messages a generous while after that, it never will.
+			total := 0
+			for _, m := range msgs {
+				total += len(m.raw)
+			}
+			receiver := server
+			if dir == "s" {
+				receiver = client
+			}
+			stall := make(chan struct{})
+			go func() {
+				sender.conn.waitPayloadBytes(total)
+				receiver.conn.in.waitReaderIdle()
+				select {
+				case <-done:
+				case <-time.After(90 * time.Second):
+					close(stall)
+				}
+			}()
 			select {
 			case <-done:
+			case <-stall:
+				stalled = true
 			case err = <-client.errCh:
 			case err = <-server.errCh:
 			case err = <-sendErr:
@@ -206,7 +231,11 @@ func runC10(op string) string {
 		}
 		client.stop()
 		server.stop()
-		return fmt.Sprintf("recv=%s err=%s segs=%s", recv.String(), g4ErrClass(err), sender.segLens())
+		ec := g4ErrClass(err)
+		if stalled {
+			ec = "stalled"
+		}
+		return fmt.Sprintf("recv=%s err=%s segs=%s", recv.String(), ec, sender.segLens())
 	case "rr":
 		depth, e := strconv.Atoi(f[1])
 		if e != nil || depth < 1 {
@@ -423,7 +452,7 @@ func c10Size(r *Rand, tier string, allowHuge bool) int {
 func genC10(r *Rand, n int, tier string, emit func(string)) {
 	for i := 0; i < n; i++ {
 		planAB, planBA := c09Plan(r), c09Plan(r)
-		huge := r.Chance(1, 20)
+		huge := r.Chance(1, 20) && tier != "race"
 		if huge {
 			// multi-MiB messages: keep the read fragmentation coarse enough to stay fast
 			planAB = Pick(r, "-", "1000,7", "65543", "4096", "8,65535")
